@@ -1,6 +1,7 @@
 //! `hv <property> <tier> <seed> <cases-file> <stats-file>`: run the real Humphrey code on generated
 //! cases and write one line per case (`fn<TAB>args...<TAB>impl-output`) for the Lean driver.
 mod common;
+mod c15;
 mod c10;
 mod c16;
 mod c17;
@@ -20,6 +21,7 @@ fn exec(prop: &str, f: &[String]) -> Option<String> {
         "C17" => c17::exec(f),
         "C16" => c16::exec(f),
         "C10" => c10::exec(f),
+        "C15" => c15::exec(f),
         _ => None,
     }
 }
@@ -66,6 +68,7 @@ fn main() {
         "C17" => c17::gen(&mut out, thorough, seed),
         "C16" => c16::gen(&mut out, thorough, seed),
         "C10" => c10::gen(&mut out, thorough, seed),
+        "C15" => c15::gen(&mut out, thorough, seed),
         other => {
             eprintln!("unknown property {}", other);
             std::process::exit(2);
